@@ -403,13 +403,22 @@ def timer_s(draw, pid, tier):
     kinds = [k for k in kinds if k != "!"]
     rk = REPLY_KINDS["default"]
     ev = []
-    ids = draw(st.lists(st.integers(1, 9), min_size=2, max_size=5))
+    ids = draw(st.lists(st.integers(1, 4), min_size=2, max_size=5))      # small pool: ids recur, i.e. get re-announced
     for cid in ids:
         sc = [["C", cid, draw(st.sampled_from(IPS)), draw(st.integers(1, 65535))]]
-        for _ in range(draw(st.integers(0, 6))):
-            sc.append(draw(event_s(cid, conf, kinds, rk, (7, 2))))
-        if draw(st.booleans()):
-            sc.extend(completion(draw, cid, conf, sc, rk, (7, 2)))
+        mode = draw(st.sampled_from(["random", "random", "complete", "pending", "pending"]))
+        if mode == "pending":
+            # all registration data delivered, queries (if any service is configured) left unanswered:
+            # the request is complete except for soft holds when its timer fires or its id is re-announced
+            data = [["N", cid, "host.example.org"], ["u", cid, "ident"], ["n", cid, "Nick"], ["U", cid, "user", "real name"]]
+            if draw(st.booleans()):
+                data.append(["P", cid, "+x acct pw"])
+            sc.extend(draw(st.permutations(data)))
+        else:
+            for _ in range(draw(st.integers(0, 6))):
+                sc.append(draw(event_s(cid, conf, kinds, rk, (7, 2))))
+            if mode == "complete":
+                sc.extend(completion(draw, cid, conf, sc, rk, (7, 2)))
         ev.extend(sc)
     ev.append(["sleep", 1.35])
     for _ in range(draw(st.integers(0, 6))):
